@@ -78,7 +78,7 @@ def props_of(fi) -> tuple:
 # these properties' checks exit 2 – never the others
 HOME = {
     "RNB": None, "DISCARD": None,   # None = every claimed property (fail closed)
-    "ROUTE": ("C01", "C02", "C04", "C05", "C06", "C09", "C10"), "FLAGS": ("C05", "C09"),
+    "ROUTE": ("C01", "C02", "C04", "C05", "C06", "C09", "C10"), "FLAGS": ("C05", "C09", "C20"),
     "SAMP-a": ("C14", "C04", "C09"), "SAMP-b": ("C14",), "SAMP-c": ("C14",), "SAMP-e": ("C04",), "SAMP-f": ("C09",),
     "NORM": ("C01", "C05", "C06", "C07", "C09"), "RENORM": ("C01", "C07", "C17"), "OUTER": ("C08",), "TAG": ("C06", "C07", "C08"),
     "CONTRACT-ONLY": ("C08",), "SANDWICH": ("C01", "C05", "C06", "C09", "C12", "C15"), "KRAUS-SUM": ("C06",), "KRAUS-LEVEL": ("C06",),
